@@ -35,6 +35,7 @@ class Fn:
 class Lib:
     def __init__(self):
         self.recs, self.enums, self.typedefs, self.fns, self.globals, self.cbs = [], [], [], [], [], []
+        self.glabels = {}
 
 
 def val_for(t, key, small=False):
@@ -142,15 +143,19 @@ def generate(rng, nfn=None, static_only=False, cxx=False):
             fn.variadic = True
             fn.params = [T("int", "int", True, 32)] + [p for p in params[:2] if p.kind != "record"]
         elif x < 0.27 and not static_only and not cxx:
-            fn.attrs = ' __asm__("%s")' % rng.choice(["renamed_%d" % i, "_under_%d" % i, "fn%d$x" % i])
+            fn.attrs = ' __asm__("%s")' % rng.choice(["renamed_%d" % i, "_under_%d" % i, "fn%d$x" % i, "_fn%d" % i, "_fn%d_v2" % i, "fn%d_tail" % i])
         elif x < 0.33:
             fn.arrparam = True
         fn.static = static_only or (rng.random() < 0.0)
+        if fn.params and not fn.cb and not fn.variadic and rng.random() < 0.3:
+            fn.unnamed = set(j for j in range(len(fn.params)) if rng.random() < 0.5)
         lib.fns.append(fn)
     if not static_only:
         for i in range(rng.randint(0, 6)):
             t = rng.choice(types + byval)
             lib.globals.append(("g%d" % i, t, rng.random() < 0.4))
+            if not cxx and rng.random() < 0.2:
+                lib.glabels["g%d" % i] = rng.choice(["_g%d" % i, "_g%d_v2" % i, "g%d_tail" % i, "gvar_%d" % i])
     return lib
 
 
@@ -167,13 +172,15 @@ def cb_sig(cb, name="", ptr=True):
     return "%s (*%s)(%s)" % (rt.c if rt else "void", name, ", ".join(p.c for p in ps) or "void")
 
 
-def fn_proto(fn, lib):
+def fn_proto(fn, lib, decl_only=False):
+    """decl_only: the separate prototype, in which the parameters listed in fn.unnamed carry no name"""
     ps = []
     for j, p in enumerate(fn.params):
+        nm = "" if (decl_only and j in getattr(fn, "unnamed", ())) else "a%d" % j
         if getattr(fn, "arrparam", False) and j == 0 and p.kind in ("int", "float"):
-            ps.append("%s a%d[4]" % (p.c, j))
+            ps.append("%s %s[4]" % (p.c, nm))
         else:
-            ps.append("%s a%d" % (p.c, j))
+            ps.append(("%s %s" % (p.c, nm)).rstrip())
     if fn.cb:
         ps.append("%s cbp" % fn.cb[0])
     if fn.variadic:
@@ -194,11 +201,15 @@ def header(lib, static_bodies=False, cxx=False):
         out.append("%s get_%s(void);" % (cb[0], cb[0]))
     for fn in lib.fns:
         if fn.static:
-            out.append("static %s%s %s" % ("inline " if fn.name[-1] in "02468" else "", fn_proto(fn, lib), static_body(fn, lib)))
+            inl = "inline " if fn.name[-1] in "02468" else ""
+            if getattr(fn, "unnamed", None):
+                # a prototype with unnamed parameters (some after named ones) in front of the definition
+                out.append("static %s%s;" % (inl, fn_proto(fn, lib, decl_only=True)))
+            out.append("static %s%s %s" % (inl, fn_proto(fn, lib), static_body(fn, lib)))
         else:
-            out.append("%s%s;" % (fn_proto(fn, lib), fn.attrs))
+            out.append("%s%s;" % (fn_proto(fn, lib, decl_only=True), fn.attrs))
     for n, t, const in lib.globals:
-        out.append("extern %s;" % global_decl(n, t, const))
+        out.append("extern %s%s;" % (global_decl(n, t, const), (' __asm__("%s")' % lib.glabels[n]) if n in lib.glabels else ""))
     text = "\n".join(out) + "\n"
     if cxx:
         text = text.replace("_Bool", "bool")
